@@ -252,7 +252,7 @@ def run_property(ctx, pid, cmd, prop_file, level_extra, e2e=0):
         "obligations": len(info["theorems"]),
         "discharged": len(info["discharged"]),
         "checker_cmd": "make -j16 (coq_makefile, full .vo) in coq/lib and coq/g09; coqc %s; coqc on %d cases shards (vm_compute)"
-                       % (prop_file, len(meta.get("shards", []))),
+                       % (prop_file, len(meta.get("shards") or [])),
         "trusted_base": common.standard_trusted_base([
             "Print Assumptions per theorem: %s" % json.dumps(info["assumptions"]),
             "modelled, not verified: golang.org/x/net/http2.Framer (frame parsing/writing, its own ordering checks), "
